@@ -1160,12 +1160,13 @@ class DiskRefsContainer(RefsContainer):
         ):
             # No cache: no peeled refs were read, or this ref is loose
             return None
+        # a loose ref overrides the packed entry, and with it whatever is
+        # recorded about the packed one: its peeled value, or that it is
+        # not a tag
+        loose = self.read_loose_ref(name)
+        if loose is not None and loose != self._packed_refs[name]:
+            return None
         if name in self._peeled_refs:
-            # a loose ref overrides the packed entry, and with it the peeled
-            # value recorded for the packed one
-            loose = self.read_loose_ref(name)
-            if loose is not None and loose != self._packed_refs[name]:
-                return None
             return self._peeled_refs[name]
         else:
             # Known not peelable
